@@ -4,6 +4,7 @@ Require Extraction.
 Require Import ExtrOcamlBasic.
 From Coq Require Import List NArith Strings.String.
 From V Require Import Base.Bytes Base.Res Gen.Tables Model.Escape Spec.EscapeSpec Model.Ast.
+From V Require Import Gen.NodesXml Model.Xml Spec.XmlLex.
 Extraction Language OCaml.
 Set Extraction KeepSingleton.
 
@@ -26,4 +27,11 @@ Extraction "model.ml"
   Ast.node_size
   Ast.mkOpts
   Ast.kind_of
+  Xml.xml
+  Xml.xml_escape
+  XmlLex.xml_read
+  XmlLex.tree_to_xtree
+  XmlLex.cells_ok
+  XmlLex.literal_leaves
+  XmlLex.max_tag_indent
 .
